@@ -228,6 +228,10 @@ func genOps(rng *lib.RNG, fs flowSpec, nsess, maxWrites, depth int) []op {
 			s.pending[k] = s.pending[k][1:]
 			s.ip.writes[w].outstanding--
 			ops = append(ops, op{kind: 'a', sess: si, node: k})
+			if len(s.pending[k]) == 0 && rng.Chance(1, 4) {
+				// the sink answers once more although nothing is pending (refused, no answer)
+				ops = append(ops, op{kind: 'd', sess: si, node: k})
+			}
 		}
 		settle(s)
 	}
